@@ -5,7 +5,7 @@
 DIFF=$1; shift
 OUT=/dev/shm/mut-out; mkdir -p $OUT
 cd /repo && git diff --quiet || { echo "/repo is dirty"; exit 2; }
-git -C /repo apply $DIFF 2>/dev/null || git -C /repo apply --3way $DIFF || { echo "patch does not apply to /repo"; git -C /repo checkout -q -- .; git -C /repo reset -q; exit 2; }; git -C /repo reset -q
+git -C /repo apply $DIFF 2>/dev/null || git -C /repo apply --3way $DIFF || { echo "patch does not apply to /repo"; git -C /repo reset -q --hard HEAD; exit 2; }; git -C /repo reset -q
 trap 'git -C /repo checkout -q -- .' EXIT
 cd /verif
 for id in "$@"; do
